@@ -5,18 +5,38 @@ package system
 import (
 	"net"
 	"net/netip"
+	"sync"
 )
 
 // Seams used only by the verification build (see /verif/DESIGN.md §2.1). The
 // staged copy of NewAddresser consults verifAddresser; the staged copy of
-// (*Dialer).dial calls the three function variables below, which default to
-// the original functions.
+// (*Dialer).dial calls the three functions below, which default to the
+// original functions.
 
-var verifAddresser Addresser
+var (
+	verifMu   sync.RWMutex // the seams are set by the harness while leftover goroutines of an earlier run may still read them
+	verifAddr Addresser
+	verifSeam struct {
+		lookup func(string) (*net.Interface, error)
+		check  func(*net.Interface, func() ([]net.Addr, error)) error
+		dial   func(*net.Interface) (VerifNDPConn, netip.Addr, error)
+	}
+)
+
+// verifAddresser returns the fake Addresser NewAddresser must return, or nil.
+func verifAddresser() Addresser {
+	verifMu.RLock()
+	defer verifMu.RUnlock()
+	return verifAddr
+}
 
 // VerifSetAddresser installs (or with nil removes) a fake Addresser returned
 // by NewAddresser.
-func VerifSetAddresser(a Addresser) { verifAddresser = a }
+func VerifSetAddresser(a Addresser) {
+	verifMu.Lock()
+	verifAddr = a
+	verifMu.Unlock()
+}
 
 // A verifNDPConn is what dial() needs from the value dialNDP returns.
 type verifNDPConn interface {
@@ -25,20 +45,42 @@ type verifNDPConn interface {
 	Close() error
 }
 
-var (
-	verifLookupInterface = lookupInterface
-	verifCheckInterface  = checkInterface
-	verifDialNDP         = func(ifi *net.Interface) (verifNDPConn, netip.Addr, error) {
+// VerifNDPConn is the exported name of verifNDPConn for harnesses in other packages.
+type VerifNDPConn = verifNDPConn
+
+func verifLookupInterface(iface string) (*net.Interface, error) {
+	verifMu.RLock()
+	f := verifSeam.lookup
+	verifMu.RUnlock()
+	if f == nil {
+		return lookupInterface(iface)
+	}
+	return f(iface)
+}
+
+func verifCheckInterface(ifi *net.Interface, addrFunc func() ([]net.Addr, error)) error {
+	verifMu.RLock()
+	f := verifSeam.check
+	verifMu.RUnlock()
+	if f == nil {
+		return checkInterface(ifi, addrFunc)
+	}
+	return f(ifi, addrFunc)
+}
+
+func verifDialNDP(ifi *net.Interface) (verifNDPConn, netip.Addr, error) {
+	verifMu.RLock()
+	f := verifSeam.dial
+	verifMu.RUnlock()
+	if f == nil {
 		c, ip, err := dialNDP(ifi)
 		if err != nil {
 			return nil, ip, err
 		}
 		return c, ip, nil
 	}
-)
-
-// VerifNDPConn is the exported name of verifNDPConn for harnesses in other packages.
-type VerifNDPConn = verifNDPConn
+	return f(ifi)
+}
 
 // VerifSetDialSeams replaces (nil: restores) the three functions (*Dialer).dial
 // calls to find, check and open the interface.
@@ -47,21 +89,7 @@ func VerifSetDialSeams(
 	check func(*net.Interface, func() ([]net.Addr, error)) error,
 	dial func(*net.Interface) (VerifNDPConn, netip.Addr, error),
 ) {
-	verifLookupInterface, verifCheckInterface = lookupInterface, checkInterface
-	verifDialNDP = func(ifi *net.Interface) (verifNDPConn, netip.Addr, error) {
-		c, ip, err := dialNDP(ifi)
-		if err != nil {
-			return nil, ip, err
-		}
-		return c, ip, nil
-	}
-	if lookup != nil {
-		verifLookupInterface = lookup
-	}
-	if check != nil {
-		verifCheckInterface = check
-	}
-	if dial != nil {
-		verifDialNDP = dial
-	}
+	verifMu.Lock()
+	verifSeam.lookup, verifSeam.check, verifSeam.dial = lookup, check, dial
+	verifMu.Unlock()
 }
